@@ -189,6 +189,8 @@ def evaluate(spec, out, props):
         return res
     for i, (rx, row) in enumerate(zip(rxns, rows)):
         text = rx if isinstance(rx, str) else rx.get(spec.get("reaction_col") or "reaction")
+        if props == ["C18"]:
+            continue  # statistics only
         for p in props:
             f = ORACLES[p]
             for v in f(text, row, spec):
@@ -366,7 +368,13 @@ def stats_oracle(rows, stats, n_in):
     n_rb = cnt(lambda r: r.get("solved_by") == "rule-based")
     n_mcs = cnt(lambda r: r.get("solved_by") == "mcs-based")
     n_mcs_solved = cnt(lambda r: r.get("solved_by") == "mcs-based" and r.get("solved"))
-    n_not_before = cnt(lambda r: r.get("solved_by") not in ("input-balanced", "rule-based"))
+    def _valid(r):
+        # a row whose input is not a parsable reaction is declined before any stage and never
+        # reaches the MCS stage (C05's business); it still counts as an input row
+        t = oracle.split_reaction(r.get("input_reaction"))
+        return t is not None and oracle.parse(t[0]) is not None and oracle.parse(t[1]) is not None
+
+    n_not_before = cnt(lambda r: r.get("solved_by") not in ("input-balanced", "rule-based") and _valid(r))
     g = stats.get
     checks = [
         ("reaction_cnt", g("reaction_cnt") == n_in, n_in),
